@@ -356,21 +356,27 @@ Section Rewalk.
   Lemma search_rewalk_full : forall (x : list str) (d0 d : nat) (pre cs : list str) f slm vol pi slcount saved,
     cs = pre ++ x -> Forall comp_ok cs -> before cs pre pi -> dwalk h u d0 x = Some d -> kperm h d0 1 u = true ->
     let r := search_loop (S (length x + f)) h v slm vol d0 pi slcount saved in
-    sr_err r = EFileExists /\ sr_child r = Some d /\ exists p, sr_parent r = Some p.
+    sr_err r = EFileExists /\ sr_child r = Some d /\ (exists p, sr_parent r = Some p) /\
+    (saved = None -> (x = [] -> pre = []) -> pi_is_last (sr_pi r) = true).
   Proof.
     induction x as [|n x IH]; intros d0 d pre cs f slm vol pi slcount saved Hcs Hok Hb Hw Hp0.
     - injection Hw as <-. rewrite app_nil_r in Hcs. subst cs. cbn [length plus]. cbv zeta.
-      rewrite (search_loop_end h v Hos f slm vol d0 pi slcount saved pre Hok Hb). cbn. eauto.
+      rewrite (search_loop_end h v Hos f slm vol d0 pi slcount saved pre Hok Hb). cbn [sr_err sr_child sr_parent sr_pi].
+      split; [reflexivity|]. split; [reflexivity|]. split; [eauto|]. intros -> Hpre. rewrite (Hpre eq_refl). reflexivity.
     - apply dwalk_cons_inv in Hw as (c & H1 & H2 & H3 & H4).
       destruct (node_is_dir_get _ _ H2) as (ch & m & Hg). subst cs.
       cbn [length plus]. cbv zeta.
       rewrite (search_loop_on h v Hos (S (length x + f)) slm vol d0 pi slcount saved pre x n Hok Hb). cbv zeta.
       rewrite (root_check_pass h v vol d0 Hp0), H1, Hg. destruct x as [|n2 x].
-      + cbn [is_nil]. injection H4 as <-. cbn. eauto.
+      + cbn [is_nil]. injection H4 as <-. cbn [sr_err sr_child sr_parent sr_pi].
+        split; [reflexivity|]. split; [reflexivity|]. split; [eauto|]. intros -> _. cbn [out_pi].
+        destruct (on_comp_views pre [] n) as (_ & _ & _ & _ & _ & Vl). exact Vl.
       + cbn [is_nil]. rewrite <- (kperm_dir _ _ _ _ u Hg), H3.
-        apply (IH c d (pre ++ [n]) (pre ++ n :: n2 :: x) f slm vol); auto.
+        destruct (IH c d (pre ++ [n]) (pre ++ n :: n2 :: x) f slm vol (on_comp (pre ++ n :: n2 :: x) pre n) slcount saved)
+          as (I1 & I2 & I3 & I4); auto.
         * rewrite <- app_assoc. reflexivity.
         * apply on_comp_before.
+        * split; [exact I1|]. split; [exact I2|]. split; [exact I3|]. intros Hs _. apply I4; [exact Hs|discriminate].
   Qed.
 
   (* specification: the same from the kernel's side *)
@@ -416,6 +422,7 @@ Definition walk_rel (h : heap) (u : user) (root : nat) (precise : bool) (r : sre
   match k with
   | WNode par kind name n =>
       sr_err r = EFileExists /\ sr_child r = Some n /\ get h n <> None /\ (exists p, sr_parent r = Some p) /\
+      (precise = true -> pi_is_last (sr_pi r) = true) /\
       (kind = LNorm -> sr_parent r = Some par /\ (precise = true -> at_name h u root par name (sr_pi r)))
   | WNeg par name _ =>
       sr_err r = ENoSuchFile /\ sr_child r = None /\ sr_parent r = Some par /\
@@ -481,6 +488,9 @@ Section Bridge.
                   todo = [] -> at_name h u root parent c (out_pi (on_comp (done ++ [c]) done c) saved)).
     { intros Hpr _. rewrite (Hsv Hpr). cbn [out_pi]. exists done. rewrite Forall_app in Hg.
       split; [|auto]. apply Forall_app. destruct Hg as (G1 & G2). split; [exact G1|]. constructor; [exact Hc|constructor]. }
+    assert (Hlast : precise_of slm = true ->
+                    todo = [] -> pi_is_last (out_pi (on_comp (done ++ [c]) done c) saved) = true).
+    { intros Hpr _. rewrite (Hsv Hpr). cbn [out_pi]. destruct (on_comp_views done [] c) as (_ & _ & _ & _ & _ & Vl). exact Vl. }
     destruct (alookup str_eqb c (children h parent)) as [n|] eqn:Hl.
     2:{ destruct todo as [|c2 todo]; cbn [is_nil].
         - cbn. repeat split; auto.
@@ -639,7 +649,7 @@ Section BridgeTop.
     - destruct fi as [|fi]; [cbn [length] in Hfi; lia|]. destruct fk as [|fk]; [cbn [length] in Hfk; lia|].
       rewrite (search_loop_end h v Hos fi slm root root _ 0 None [] (Forall_nil _) (pi_new_before [])).
       rewrite kwalk_S. cbn [walk_rel sr_err sr_child sr_parent]. split; [reflexivity|]. split; [reflexivity|].
-      split; [apply node_is_dir_valid; exact Hd|]. split; [eauto|]. intros [=].
+      split; [apply node_is_dir_valid; exact Hd|]. split; [eauto|]. split; [reflexivity|]. intros [=].
     - destruct Hmd as [->|Hmd]; [|discriminate]. destruct (kperm h root 1 u) eqn:Hp.
       + apply (bridge_nolink_at h v Hos (c :: cs) [] root); auto; try lia; try discriminate.
         apply pi_new_before.
